@@ -37,6 +37,7 @@ pub use tokio as __tokio;
 #[doc(hidden)]
 pub mod __verif_sync {
     pub use detsim::sync::RwLock;
+    pub use detsim::sync::Mutex;
 }
 
 /// Private test module to make writing internal tests easier. This might change or
